@@ -21,6 +21,27 @@ TEXT = {
     ),
 }
 
+TEXT["C01"] = dict(
+    category="exploration",
+    technique="seeded simulation: generated programs driven by a tape-chosen send/throw/close schedule; self-reporting shadow managers as oracle; 4 interpreters; tape shrinking + replay",
+    text="Seeded sampling of generated coroutine/generator/async-generator programs (with/async with x try/loops/if/match x every leave kind, "
+    "managers that trap/raise/swallow inside enter/exit, generator-based managers, exit stacks) x driver schedules (send, throw of caught and uncaught "
+    "exceptions, close, asend/athrow/aclose). At every suspension the real extract() and contexts_active_in_frame() are compared with the shadow the "
+    "managers keep themselves (identity, order, is_async, is_exiting) and any InspectionWarning is a violation. CPython 3.9-3.12. Sampling: evidence, not proof.",
+    note="Trusted: placement of the shadow marks (sim/world/rt.py); the generated grammar as approximation of 'every shape the compiler can emit'; "
+    "driver never close()s while an @asynccontextmanager generator is between resume and finish (CPython then ends __aexit__ without running the generator: shadow would be stale).",
+    design_ref="5 (C01), 2.4",
+)
+TEXT["C02"] = dict(
+    category="exploration",
+    technique="seeded simulation: same program world, probes inside bodies / enter / exit / callbacks / callees call extract_since and compare running frames with the shadow",
+    text="Same generated programs and schedules as C01 plus sync functions; PROBE points in bodies, in __enter__/__exit__/__aenter__/__aexit__, in generator-based "
+    "manager bodies before/after the yield, in ExitStack callbacks and 1-2 plain calls below; every probe extracts the running stack and compares every world "
+    "frame on the thread's f_back chain with its shadow (exactness, manager not listed while entering, listed last+exiting+obj while exiting). One known finding (K1) is reported as KNOWN-FINDING.",
+    note="Trusted: as C01; 'running on the calling thread' is taken as the f_back chain from the probe (CPython does not link frames that delegate a throw() through a non-generator awaitable).",
+    design_ref="5 (C02)",
+)
+
 PENDING_REASON = "check not built yet in this round (work in progress; see DESIGN.md section 5 for the planned simulation)"
 
 ALL = ["C%02d" % i for i in range(1, 21)]
